@@ -4,12 +4,13 @@
 Direction A: behaviours of the TLC model (edge cover of small state graphs + simulation of the larger
 ones) are projected onto *schedules* - what the environment does at which loop-iteration boundary:
 start a caller (wait_for_*_message / create_*_response_future + timeout / SoulSeekClient.execute with
-a real command), write a batch of frames to the server / a peer connection, cancel a caller's task,
-let a caller's timeout expire.  Every schedule is executed on a real SoulSeekClient (real Network,
+a real command), write a batch of frames to the server / a peer connection (optionally with one frame
+whose handling suspends in a slow application listener of MessageReceivedEvent), release that listener,
+cancel a caller's task, let a caller's timeout expire - also while a message is being handled.  Every schedule is executed on a real SoulSeekClient (real Network,
 connections, reader loops, managers) on harness.simnet in harness.vloop virtual time.  The driver is a
 zero-delay timer, i.e. the last handle of every loop iteration, which is exactly the model's "D".
 
-Direction B: every execution is recorded (call / msg / stim / out / err / q events) and judged by TLC
+Direction B: every execution is recorded (call / msg / hdl / stim / out / err / q events) and judged by TLC
 against ExpectedResponseTrace, which binds only the observation layer of the design spec.
 """
 from __future__ import annotations
@@ -225,6 +226,8 @@ class Execution:
         self.tasks: dict[int, asyncio.Task] = {}
         self.deadline: dict[int, float] = {}
         self.peer_frames: dict[str, list] = {}
+        self.slowq: dict[str, list] = {}
+        self.gates: dict[str, asyncio.Future] = {}
         self.callinfo: dict[int, tuple] = {}
         self.late_cls: dict[int, str] = {}
         self.closing = False
@@ -296,10 +299,23 @@ class Execution:
             await vloop.settle(loop)
             self.server_sess = self.server.sessions[-1]
 
-            def on_message(event):
+            async def on_message(event):
+                # the last listener of the event: "msg" when the message reaches it, "hdl" when it returns (the
+                # completion of the waiters follows in the same slot).  For the frames the schedule marks, it
+                # is a slow application listener: it suspends until the schedule releases it.
                 self.handled.append(event.message)
-                conn = event.connection
-                self.ev(ev='msg', **self._abstract_message(event.message, conn))
+                j = len(self.handled)
+                ab = self._abstract_message(event.message, event.connection)
+                self.ev(ev='msg', **ab)
+                q = self.slowq.get(ab['conn'])
+                if q and q.pop(0):
+                    gate = loop.create_future()
+                    self.gates[ab['conn']] = gate
+                    try:
+                        await gate
+                    finally:
+                        self.gates.pop(ab['conn'], None)
+                self.ev(ev='hdl', j=j)
             self._listener = on_message      # the bus holds listeners weakly
             client.events.register(MessageReceivedEvent, on_message, priority=1000)
 
@@ -394,6 +410,10 @@ class Execution:
                     self._stimulus(stim)
         elif not quiescent:
             pass
+        elif any(not g.done() for g in self.gates.values()):
+            for g in list(self.gates.values()):      # the end: every suspended listener is let go
+                if not g.done():
+                    g.set_result(None)
         elif not self.flushed:
             # the end: the clock passes every deadline the callers were given; whoever still waits is due
             self.flushed = True
@@ -439,9 +459,15 @@ class Execution:
         if kind == 'reg':
             _, c, spec, api, fails = stim
             self.tasks[c] = loop.create_task(self._caller(c, spec, api, fails), name=f'caller-{c}')
+        elif kind == 'release':
+            gate = self.gates.get(stim[1])
+            if gate is not None and not gate.done():
+                gate.set_result(None)
         elif kind == 'feed':
             msgs = stim[1]
             conn = msgs[0]['conn']
+            sl = stim[2] if len(stim) > 2 else 0
+            self.slowq.setdefault(conn, []).extend((i + 1) == sl for i in range(len(msgs)))
             data = b''
             for m in msgs:
                 fam = self.conc.fam(conn, m['cls'])
@@ -596,7 +622,7 @@ def _probe(cmd):
 # TLC behaviours -> schedules
 # ---------------------------------------------------------------------------
 
-_LABEL = re.compile(r'^S?(Reg|Feed|Cancel|Due|DStep|Observe|Run)(?:\((.*)\))?$', re.S)
+_LABEL = re.compile(r'^S?(Reg|Feed|Cancel|Due|Release|DStep|Observe|Run)(?:\((.*)\))?$', re.S)
 
 
 def _spec_of(rec) -> dict:
@@ -629,9 +655,11 @@ def schedule_of(labels) -> Optional[dict]:
             c, s, api, fails = vals
             cur['stims'].append(('reg', int(c), _spec_of(s), str(api), bool(fails)))
         elif name == 'Feed':
-            (b,) = vals
+            b, sl = vals
             cur['stims'].append(('feed', [dict(conn=str(x['conn']), cls=str(x['cls']), f1=int(x['f1']), f2=int(x['f2']))
-                                          for x in b]))
+                                          for x in b], int(sl)))
+        elif name == 'Release':
+            cur['stims'].append(('release', str(vals[0])))
         elif name == 'Cancel':
             cur['stims'].append(('cancel', int(vals[0])))
         elif name == 'Due':
@@ -843,6 +871,11 @@ CODE_CFGS = {
     'MC_code_F4_ticket_after_register.cfg': 'AllAnsweredCompleted',
 }
 
+# designs that are not the pinned code's but were tried against the check (seeded changes): same treatment
+DEV_CFGS = {
+    'MC_dev_snapshot_at_arrival.cfg': 'DeliveryUnbroken',
+}
+
 ACTIONS = ['Reg', 'Feed', 'Cancel', 'Due', 'Observe', 'DStep', 'Run']
 
 
@@ -930,17 +963,20 @@ def _tlc_jobs(chk: Check, thorough: bool):
         jobs['wait2'] = pool.submit(mc, 'MC_wait2.cfg')
         jobs['exec'] = pool.submit(mc, 'MC_exec2.cfg' if thorough else 'MC_exec1.cfg')
         jobs['match'] = pool.submit(cover_schedules, 'MC_match.cfg')
+        jobs['slow2'] = pool.submit(cover_schedules, 'MC_slow2.cfg')
         if thorough:
             jobs['pair'] = pool.submit(cover_schedules, 'MC_pair.cfg', 3000)
             jobs['sim4'] = pool.submit(simulate_schedules, 'MC_sim4.cfg', 2500, 110, chk.seed + 11, 3000)
             jobs['sim3'] = pool.submit(simulate_schedules, 'MC_sim3.cfg', 1500, 100, chk.seed + 12, 3000)
             jobs['mixed2'] = pool.submit(mc, 'MC_mixed2.cfg')
             jobs['wait3'] = pool.submit(mc, 'MC_wait3.cfg')
+            jobs['slow2b'] = pool.submit(tlc.model_check, SPEC, 'MC_slow2b.cfg', expect_actions=ACTIONS + ['Release'],
+                                         workers=w, timeout=3000)
         else:
             jobs['pair_due'] = pool.submit(cover_schedules, 'MC_pair_due.cfg')
             jobs['pair_cancel'] = pool.submit(cover_schedules, 'MC_pair_cancel.cfg')
             jobs['sim3'] = pool.submit(simulate_schedules, 'MC_sim3.cfg', 350, 100, chk.seed + 12)
-        for cfg in CODE_CFGS:
+        for cfg in list(CODE_CFGS) + list(DEV_CFGS):
             jobs[cfg] = pool.submit(tlc.run_tlc, SPEC, cfg, workers=2, timeout=900)
         return {k: f.result() for k, f in jobs.items()}
 
@@ -949,9 +985,10 @@ def run(chk: Check, args):
     thorough = chk.tier == 'thorough'
     chk.cov['rule'] = (
         'a case = one schedule (what the environment does at which loop-iteration boundary: start caller / write '
-        'batch of frames / cancel / expire timeout) projected from a TLC behaviour (edge covers of the enumerated '
-        'state graphs MC_match and MC_pair*, simulation of MCSim with 3-4 callers, the counterexamples of the four '
-        'code-position configs), executed with one seeded concretisation (real message classes, commands, field '
+        'batch of frames, possibly one handled by a suspending listener / release it / cancel / expire timeout) '
+        'projected from a TLC behaviour (edge covers of the enumerated state graphs MC_match, MC_pair* and MC_slow2, '
+        'simulation of MCSim with 3-4 callers, the counterexamples of the code-position and deviating-design '
+        'configs), executed with one seeded concretisation (real message classes, commands, field '
         'values, API variant) on a real SoulSeekClient in virtual time; distinct = distinct recorded traces; '
         'non-trivial = the trace has a caller and at least one handled message, cancellation or expiry')
     tmp = tempfile.mkdtemp(prefix='c12-')
@@ -970,13 +1007,14 @@ def _run(chk: Check, thorough: bool, tmp: str):
     if thorough:
         chk.add_model('ExpectedResponse 2 callers peers+ticket command (MC_mixed2, exhaustive)', res['mixed2'])
         chk.add_model('ExpectedResponse 3 callers (MC_wait3, exhaustive)', res['wait3'])
-    for cfg, inv in CODE_CFGS.items():
+        chk.add_model('ExpectedResponse 2 callers, slow listener, 2 messages (MC_slow2b, exhaustive)', res['slow2b'])
+    for cfg, inv in list(CODE_CFGS.items()) + list(DEV_CFGS.items()):
         r = res[cfg]
         hit = any(i.name == inv for i in r.issues)
-        chk.cov['binding_selftest'][f'model_in_code_position_violates:{cfg[8:-4]}'] = f'{inv}: {hit}'
+        key = 'model_in_code_position_violates' if cfg in CODE_CFGS else 'deviating_design_violates'
+        chk.cov['binding_selftest'][f'{key}:{cfg[7:-4].lstrip("_")}'] = f'{inv}: {hit}'
         if not hit:
-            raise MachineryFailure(f'{cfg} (the pinned code\'s design) does not violate {inv}: '
-                                   f'{[(i.kind, i.name) for i in r.issues]}')
+            raise MachineryFailure(f'{cfg} does not violate {inv}: {[(i.kind, i.name) for i in r.issues]}')
 
     # ---- schedules ---------------------------------------------------------------
     scheds: list[tuple[dict, str]] = []
@@ -992,18 +1030,18 @@ def _run(chk: Check, thorough: bool, tmp: str):
             scheds.append((sc, source))
 
     # the counterexamples of the code-position models always run: if the tree has the defect, they show it
-    for cfg in CODE_CFGS:
+    for cfg in list(CODE_CFGS) + list(DEV_CFGS):
         for iss in res[cfg].issues:
             sc = schedule_of([lab for lab, _ in iss.trace])
             if sc:
-                add(sc, 'cex:' + cfg[8:-4])
-    for name in ('match', 'pair', 'pair_due', 'pair_cancel'):
+                add(sc, 'cex:' + cfg[7:-4].lstrip('_'))
+    for name in ('match', 'pair', 'pair_due', 'pair_cancel', 'slow2'):
         if name not in res:
             continue
         sc_list, r, ns, ne, npaths = res[name]
         chk.add_model(f'ExpectedResponse MC_{name} (exhaustive, graph dumped)', r)
         chk.cov[f'graph_{name}'] = dict(states=ns, edges=ne, cover_paths=npaths, schedules=len(sc_list))
-        cap = None if thorough else (800 if name == 'match' else 600)
+        cap = None if thorough else (800 if name == 'match' else 500)
         pick = sc_list
         if cap is not None and len(sc_list) > cap:
             pick = sorted(chk.rng.sample(sc_list, cap), key=_key)
@@ -1087,7 +1125,9 @@ def _run(chk: Check, thorough: bool, tmp: str):
         'the environment acts at loop-iteration boundaries (the driver is the last handle of each iteration); '
         'a third party calling task.cancel() in the middle of an iteration is not modelled',
         'a request is "made" when the caller enters wait_for_*/create_*/execute (the waiter is registered in that '
-        'same slot) and a message is "handled" when MessageReceivedEvent is emitted for it',
+        'same slot); a message "comes in" when MessageReceivedEvent reaches the harness listener (the last one) and '
+        'its handling is finished when that listener returns (the completion loop follows in the same slot); a '
+        'request made while a message is being handled may or may not be answered by it',
         'quiescent = nothing in the ready queue at the driver\'s turn; Network._expected_response_futures is '
         'read there (done entries counted)',
         'one ticket-bearing command (PeerGetDirectoryContentCommand) per run; its ticket is the first value of '
